@@ -207,6 +207,22 @@ def register(builtin):
         for k, v in moved: del f[k]
         for k, v in moved: f[nb + k[len(na):]] = v
         return 0
+    @builtin('lseek', 'lseek64')
+    def b_lseek(ex, st, args, ins):
+        f = fs(st)
+        e = injected(f, 'lseek')
+        if e: return err(ex, st, e) | (ops.mask(64) ^ ops.mask(32))      # (off_t)-1
+        if args[0] not in st.ghost.get('fs_fds', {}): return err(ex, st, 9) | (ops.mask(64) ^ ops.mask(32))
+        return 0                                                          # files of the model have no content: every offset / size is 0
+    @builtin('sendfile', 'sendfile64')
+    def b_sendfile(ex, st, args, ins):
+        f = fs(st); fds = st.ghost.get('fs_fds', {})
+        e = injected(f, 'sendfile')
+        if e: return err(ex, st, e) | (ops.mask(64) ^ ops.mask(32))
+        if args[0] not in fds or args[1] not in fds: return err(ex, st, 9) | (ops.mask(64) ^ ops.mask(32))
+        src = f.get(fds[args[1]])
+        if src is None or src[0] == 'd': return err(ex, st, 22) | (ops.mask(64) ^ ops.mask(32))   # EINVAL: not a regular file
+        return 0
     @builtin('vf_fs_open_fds')
     def vf_fs_open_fds(ex, st, args, ins): return len(st.ghost.get('fs_fds', {}))
 
